@@ -6,6 +6,7 @@ import (
 	"go/parser"
 	"go/token"
 	"go/types"
+	"math/big"
 	"os"
 	"sort"
 	"strconv"
@@ -333,7 +334,41 @@ func cfCalls(sc *Scenario, toks []cfTok, inner func(string, []SV, *symEval, *sym
 				return SV{K: "slice", Desc: name, Len: &l, Cap: &l, Known: true}, true
 			}
 		case callee == "encoding/json.Marshal" && len(args) == 1:
+			if os.Getenv("L4DEBUG") == "cfjson" {
+				fmt.Printf("DBG marshal %+v\n", args[0])
+			}
+			if (args[0].K == "slice" || args[0].K == "ref") && args[0].Len != nil && args[0].Len.Known {
+				st.heap["jsonlen:"+args[0].Desc] = *args[0].Len // (a list: its length at the time of encoding)
+			}
 			return symTuple(SV{K: "slice", Known: true, Desc: "json:" + args[0].Desc}, symNil()), true
+		case callee == "encoding/json.Unmarshal" && len(args) == 2 && os.Getenv("L4DEBUG") == "cfjson" && func() bool { fmt.Printf("DBG unmarshal %+v | %+v\n", args[0], args[1]); return false }():
+		case callee == "encoding/json.Unmarshal" && len(args) == 2 && strings.HasPrefix(args[0].Desc, "json:") && args[1].K == "addr":
+			// decoding the encoding of a list of known strings into a list variable: the variable holds exactly those
+			// elements afterwards (what it held before is gone: json.Unmarshal resets a slice before it fills it)
+			src := strings.TrimPrefix(args[0].Desc, "json:")
+			if ln, ok := st.heap["jsonlen:"+src]; ok && ln.Known {
+				dst := ev.fresh("decoded")
+				for i := int64(0); i < ln.N; i++ {
+					e, ok := lookupElem(st, src, i)
+					if !ok || !e.Known {
+						return SV{}, false
+					}
+					st.heap[fmt.Sprintf("%s[%d]", dst, i)] = e
+				}
+				n := ln
+				st.heap[args[1].Desc] = SV{K: "slice", Known: true, Desc: dst, Len: &n, Cap: &n}
+				return symNil(), true
+			}
+		case callee == "(*math/big.Int).SetString" && len(args) == 3 && known(1) && args[2].K == "int" && args[2].Known:
+			if v, ok := new(big.Int).SetString(args[1].S, int(args[2].N)); ok {
+				st.heap["bigint:"+args[0].Desc] = symStr(v.String())
+				return symTuple(args[0], symBool(true)), true
+			}
+			return symTuple(symNil(), symBool(false)), true
+		case callee == "(*math/big.Int).String" && len(args) == 1:
+			if v, ok := st.heap["bigint:"+args[0].Desc]; ok {
+				return v, true
+			}
 		case strings.HasSuffix(callee, "caddyconfig.JSON") && len(args) == 2:
 			return SV{K: "slice", Known: true, Desc: "json:" + args[0].Desc}, true
 		case strings.HasSuffix(callee, "layer4.SetModuleNameInline") && len(args) == 3 && known(0) && known(1):
@@ -1232,6 +1267,9 @@ var cfTables = []cfTable{
 			{"one policy", "tls {\n connection_policy {\n  alpn h2 http/1.1\n  default_sni example.com\n  protocols tls1.2 tls1.3\n }\n}", map[string]string{"ConnectionPolicies": `[{ALPN:["h2" "http/1.1"] DefaultSNI:"example.com" ProtocolMax:"tls1.3" ProtocolMin:"tls1.2"}]`}},
 			{"protocols with the minimum only", "tls {\n connection_policy {\n  protocols tls1.3\n }\n}", map[string]string{"ConnectionPolicies": `[{ProtocolMin:"tls1.3"}]`}},
 			{"two policies stay two objects, in order", "tls {\n connection_policy {\n  default_sni a.example\n }\n connection_policy {\n  default_sni b.example\n  curves x25519\n }\n}", map[string]string{"ConnectionPolicies": `[{DefaultSNI:"a.example"} {Curves:["x25519"] DefaultSNI:"b.example"}]`}},
+			{"certificate selection by serial numbers, two lines add up", "tls {\n connection_policy {\n  cert_selection {\n   serial_number 11 22\n   serial_number 33\n  }\n }\n}", map[string]string{"ConnectionPolicies": `[{CertSelection:{SerialNumber:["11" "22" "33"]}}]`}},
+			{"certificate selection by tags and organization", "tls {\n connection_policy {\n  cert_selection {\n   any_tag a b\n   any_tag c\n   subject_organization Example\n  }\n }\n}", map[string]string{"ConnectionPolicies": `[{CertSelection:{AnyTag:["a" "b" "c"] SubjectOrganization:["Example"]}}]`}},
+			{"serial number that is no number", "tls {\n connection_policy {\n  cert_selection {\n   serial_number abc\n  }\n }\n}", nil},
 			{"same-line argument", "tls on", nil},
 			{"unknown option", "tls {\n policy {\n }\n}", nil},
 			{"unknown policy option", "tls {\n connection_policy {\n  sni x\n }\n}", nil},
